@@ -358,8 +358,20 @@ def run_driver(requests, timeout=600):
     return [json.loads(l) for l in lines]
 
 
+class Infra(BaseException):
+    """the check itself could not run (not a statement about the code under test): exit 2"""
+
+
 def run_driver_parallel(requests, jobs=8, timeout=900):
     """Split a large batch over several driver processes."""
+    try:
+        return _run_driver_parallel(requests, jobs, timeout)
+    except MemoryError:
+        # the harness (not the implementation) ran into the address-space cap while holding a batch: infrastructure, not a finding
+        raise Infra("out of memory while talking to the model driver (%d requests)" % len(requests))
+
+
+def _run_driver_parallel(requests, jobs=8, timeout=900):
     if len(requests) < 64 or jobs <= 1:
         return run_driver(requests, timeout)
     from concurrent.futures import ThreadPoolExecutor
